@@ -202,6 +202,24 @@ def single_lattice(rng, tier):
                                           low_fidelity_model='simple',
                                           convection_factor=0.6),
         gap_model='flow')
+    # third batch: region stacks and pin models
+    t = bundle_type(2)
+    t['AxialRegion'] = {
+        'inlet': dict(model='simple', vf_coolant=0.5, z_lo=0.0, z_hi=0.08),
+        'shield': dict(model='6node', vf_coolant=0.3, z_lo=0.08, z_hi=0.2),
+        'plenum': dict(model='simple', vf_coolant=0.6, z_lo=0.45, z_hi=0.55,
+                       convection_factor=0.9),
+        'outlet': dict(model='6node', vf_coolant=0.4, z_lo=0.55, z_hi=L)}
+    t['_rods'] = [0.2, 0.45]
+    one('opt-five-regions', t, gap_model='flow', ncell=4,
+        cell_bounds=[0.0, 0.08, 0.2, 0.45, L],
+        setup={'include_gravity_head_loss': True})
+    t = add_regions(bundle_type(3), L, upper=dict(model='6node',
+                                                  vf_coolant=0.35))
+    one('opt-only-upper-region', t, gap_model='flow')
+    t = add_regions(bundle_type(2, nd=2), L,
+                    lower=dict(model='simple', vf_coolant=0.3))
+    one('opt-only-lower-region-dd', t, gap_model='none')
     if tier == 'thorough':
         one('rod4-adiabatic', bundle_type(4), power_order=2, ncell=3)
         one('rod5-dd', bundle_type(5, nd=2), gap_model='flow')
